@@ -214,8 +214,19 @@ func setupHostsFile(c *Ctx) {
 	}
 }
 
+// runResolve: `resolve …` = one query on a fresh Proxy; `resolveseq … <p1>,<p2>,…` = the queries
+// in order on ONE Proxy with ONE discovery.Hosts (tables read once, then reused: a lookup must not
+// disturb what a later lookup of the same table returns); results joined by '|', up = upstream
+// calls made by that query.
 func runResolve(c *Ctx, f []string) string {
 	if len(f) != 7 || (f[1] != "b=0" && f[1] != "b=1") {
+		return "bad-op"
+	}
+	var payloads [][]byte
+	for _, h := range strings.Split(f[6], ",") {
+		payloads = append(payloads, unhx(h))
+	}
+	if f[0] == "resolve" && len(payloads) != 1 {
 		return "bad-op"
 	}
 	lines, lpresent, ok := parseLocalTok(f[2])
@@ -251,7 +262,6 @@ func runResolve(c *Ctx, f []string) string {
 	default:
 		return "bad-op"
 	}
-	payload := unhx(f[6])
 	p := proxy.Proxy{Upstream: up, BogusPriv: f[1] == "b=1"}
 	if lpresent {
 		setupHostsFile(c)
@@ -263,35 +273,44 @@ func runResolve(c *Ctx, f []string) string {
 	if dnp {
 		p.DiscoveryResolver = discovery.Resolver{&tabSource{names: dn, addrs: da}}
 	}
-	done := make(chan string, 1)
-	go func() {
-		defer func() {
-			if x := recover(); x != nil {
-				done <- fmt.Sprintf("PANIC %v", x)
+	var outs []string
+	for _, payload := range payloads {
+		payload := payload
+		before := up.calls
+		done := make(chan string, 1)
+		go func() {
+			defer func() {
+				if x := recover(); x != nil {
+					done <- fmt.Sprintf("PANIC %v", x)
+				}
+			}()
+			// proxy/udp.go, tcp.go: a parse error is logged and the query resolved anyway
+			q, _ := query.New(append([]byte{}, payload...), loopback, loopback)
+			buf := make([]byte, 65535)
+			ctx, cancel := context.WithTimeout(context.Background(), 2*time.Second)
+			defer cancel()
+			n, _, err := p.Resolve(ctx, q, buf)
+			e := 0
+			if err != nil {
+				e = 1
 			}
+			out := "-"
+			if n > 0 && n <= len(buf) {
+				out = hx(buf[:n])
+			}
+			done <- fmt.Sprintf("n=%d err=%d up=%d buf=%s", n, e, up.calls-before, out)
 		}()
-		// proxy/udp.go, tcp.go: a parse error is logged and the query resolved anyway
-		q, _ := query.New(append([]byte{}, payload...), loopback, loopback)
-		buf := make([]byte, 65535)
-		ctx, cancel := context.WithTimeout(context.Background(), 2*time.Second)
-		defer cancel()
-		n, _, err := p.Resolve(ctx, q, buf)
-		e := 0
-		if err != nil {
-			e = 1
+		select {
+		case s := <-done:
+			outs = append(outs, s)
+			if strings.HasPrefix(s, "PANIC") {
+				return s
+			}
+		case <-time.After(3 * time.Second):
+			return "TIMEOUT"
 		}
-		out := "-"
-		if n > 0 && n <= len(buf) {
-			out = hx(buf[:n])
-		}
-		done <- fmt.Sprintf("n=%d err=%d up=%d buf=%s", n, e, up.calls, out)
-	}()
-	select {
-	case s := <-done:
-		return s
-	case <-time.After(3 * time.Second):
-		return "TIMEOUT"
 	}
+	return strings.Join(outs, "|")
 }
 
 func runPtrIP(name []byte) (s string) {
@@ -769,7 +788,41 @@ func (r *Rng) genResolve(c *Ctx) string {
 	} else {
 		c.Stat("bogus:on")
 	}
-	return strings.Join([]string{"resolve", b, ltok, dn, da, r.upstreamTok(c, id), hx(p)}, " ")
+	op := "resolve"
+	ps := hx(p)
+	if r.Chance(20) && (len(lc.names) > 0 || len(lc.ips) > 0) {
+		// a sequence on one Proxy / one hosts table: the listed names asked for each family in turn,
+		// again, in other spellings, and the reverse names of the listed addresses
+		op = "resolveseq"
+		c.Stat("op:resolveseq")
+		k := 2 + r.Intn(5)
+		var focus string
+		if len(lc.names) > 0 {
+			focus = lc.names[r.Intn(len(lc.names))]
+		}
+		for j := 0; j < k; j++ {
+			var nm string
+			var qt int
+			if len(lc.ips) > 0 && (focus == "" || r.Chance(20)) {
+				nm, _ = r.caseVariant(reverseName(lc.ips[r.Intn(len(lc.ips))]))
+				qt = 12
+			} else {
+				n0 := focus
+				if r.Chance(25) {
+					n0 = lc.names[r.Intn(len(lc.names))]
+				}
+				nm, _ = r.caseVariant(n0)
+				qt = r.Pick([]int{1, 28, 28, 1, 255})
+			}
+			b2 := append(nameToWire(nm), be16(qt)...)
+			b2 = append(b2, 0, 1)
+			q2 := append(be16(r.Intn(65536)), 1, 0, 0, 1, 0, 0, 0, 0, 0, 0)
+			q2 = append(q2, b2...)
+			ps += "," + hx(q2)
+			c.Stat(fmt.Sprintf("seq-qtype:%d", qt))
+		}
+	}
+	return strings.Join([]string{op, b, ltok, dn, da, r.upstreamTok(c, id), ps}, " ")
 }
 
 func (r *Rng) genPtrName(c *Ctx) string {
@@ -813,7 +866,7 @@ func init() {
 				c.Emit(l, runPtrIP(unhx(f[1])))
 			case len(f) == 2 && f[0] == "hoststab":
 				c.Emit(l, runHostsTab(c, f[1]))
-			case f[0] == "resolve":
+			case f[0] == "resolve" || f[0] == "resolveseq":
 				c.Emit(l, runResolve(c, f))
 			default:
 				c.Emit(l, "bad-op")
